@@ -292,6 +292,8 @@ let node_op tok : NodeSys.sop * (BinNums.coq_N * BinNums.coq_N) list =
     | "L" -> NodeSys.SLast (nz p.(1), nz p.(2), p.(3) = "i", ni p.(4))
     | "X" -> NodeSys.SDrop (ni p.(1))
     | "Z" -> NodeSys.SDropFrom (nz p.(1))
+    | "K" -> NodeSys.SAlias (nz p.(1), nz p.(2))
+    | "M" -> NodeSys.SMute (nz p.(1), p.(2) = "1")
     | "A" -> NodeSys.SAll
     | "P" -> NodeSys.SIface (nz p.(1), unhex p.(2))
     | "O" -> NodeSys.SPopWrites (nz p.(1))
